@@ -576,7 +576,7 @@ pub fn run(ctx: &mut RunCtx) -> i32 {
         "C08",
         ctx.shards,
         cases,
-        1500,
+        200,
         |_| {
             let ex = excl.clone();
             pbt::strategy(move |g| gen_case(g, &ex))
